@@ -1099,6 +1099,25 @@ def make_math():
             return Fr(0)
         return core.uf('atan', v)
 
+    def misclose(a, b, rel_tol=Fr(1, 10 ** 9), abs_tol=Fr(0)):
+        """|a - b| <= max(rel_tol * max(|a|, |b|), abs_tol)  (CPython's definition over the reals)"""
+        a, b = (_scalar(v.d.reshape(-1)[0]) if isinstance(v, ndarray) else v for v in (a, b))
+        a, b = (v if isinstance(v, S) else to_fr(v) for v in (a, b))
+        rel_tol, abs_tol = (v if isinstance(v, S) else to_fr(v) for v in (rel_tol, abs_tol))
+        ab = lambda v: core.sabs(v) if isinstance(v, S) else abs(v)
+        mx = lambda u, v: core.smax(u, v) if isinstance(u, S) or isinstance(v, S) else max(u, v)
+        return ab(a - b) <= mx(rel_tol * mx(ab(a), ab(b)), abs_tol)
+
+    def mhypot(*v):
+        return msqrt(builtins.sum((x * x for x in v), Fr(0)))
+
+    m.isclose = misclose
+    m.hypot = mhypot
+    m.isnan = lambda v: False
+    m.isinf = lambda v: False
+    m.isfinite = lambda v: True
+    m.fsum = lambda seq: builtins.sum(list(seq), Fr(0))
+    m.pow = lambda a, b: core.spow(a if isinstance(a, S) else to_fr(a), b)
     m.fabs = fabs
     m.sqrt = msqrt
     m.ceil = core.sceil
